@@ -100,7 +100,20 @@ class ASTPrinter:
         return "$%s" % node.name.value
 
     def print_document(self, node: _ast.Document) -> str:
-        return _join(map(self, node.definitions), "\n\n") + "\n"
+        definitions = []
+        previous = None
+        for definition in node.definitions:
+            formatted = self(definition)
+            # A query in the short form directly following a type system
+            # definition without a body (e.g. `type Foo`) would be read back
+            # as the body of that definition.
+            if formatted.startswith("{") and isinstance(
+                previous, _ast.TypeSystemDefinition
+            ):
+                formatted = "query " + formatted
+            definitions.append(formatted)
+            previous = definition
+        return _join(definitions, "\n\n") + "\n"
 
     def print_operation_definition(self, node: _ast.OperationDefinition) -> str:
         op = node.operation
